@@ -61,6 +61,34 @@ func VerifH_ReadValueAtCached() {
 	}
 }
 
+// VerifH_ReadValueAtCacheShared: the value cache is keyed by offset only, so what an earlier
+// read left there must not be served unchecked. An earlier read of the same offset -- with any
+// expected length plen and digest, integrity check on or off (ExportTx reads with it off) --
+// happens first, whatever its outcome; then an integrity-checked read for the entry (olen,
+// digest of orig) returns orig or fails.
+func VerifH_ReadValueAtCacheShared() {
+	olen, plen := verifrt.Param("olen"), verifrt.Param("plen")
+	orig := verifrt.Bytes("orig", olen)
+	hval := sha256.Sum256(orig)
+	vlog := &verifMemApp{b: verifrt.Bytes("vlog", verifrt.Param("vlog"))}
+	c, err := cache.NewCache(4)
+	verifrt.Assume(err == nil)
+	st := &ImmuStore{maxIOConcurrency: 1, vLogs: map[byte]*refVLog{0: {vLog: vlog}}, vLogCache: c}
+	off := verifrt.I64("off")
+	verifrt.Assume(off >= 0 && off < 8)
+	pbuf := make([]byte, plen)
+	_, _ = st.readValueAt(pbuf, encodeOffset(off, 1), verifrt.Digest("otherDigest"), verifrt.Bool("otherSkipsCheck"))
+	buf := make([]byte, olen)
+	n, err := st.readValueAt(buf, encodeOffset(off, 1), hval, false)
+	if err != nil {
+		verifrt.Reach("rejected")
+		return
+	}
+	verifrt.Reach("accepted")
+	verifrt.Assert(n == olen, "length is the original length")
+	verifrt.Assert(bytes.Equal(buf[:n], orig), "returned value is the original value")
+}
+
 // VerifH_TxReaderChain: a sequential scan accepts the next transaction only if it chains to the
 // previous one (ascending: PrevAlh; descending: Alh).
 func VerifH_TxReaderChain() {
@@ -147,7 +175,14 @@ func verifTxRecord(fixedLayout bool) {
 	}
 	if eoff+2 <= n {
 		kvmdLen := int(b[eoff])<<8 | int(b[eoff+1])
-		verifrt.Assume(kvmdLen <= 1)
+		if !fixedLayout && verifrt.Param("K") == 99 {
+			// second regime: a declared entry-metadata length beyond the legal maximum, up to
+			// 40 (stated bound: larger declared lengths exceed the executor's allocation
+			// bound); the reader must refuse it, never index with it
+			verifrt.Assume(kvmdLen > maxKVMetadataLen && kvmdLen <= 40)
+		} else {
+			verifrt.Assume(kvmdLen <= 1)
+		}
 	}
 	if fixedLayout {
 		// every content byte is arbitrary; the length fields are those of the original
